@@ -103,13 +103,16 @@ structure Pool where
   read : Nat → Nat → Nat → Outcome (List Byte)
   /-- the real length of the file on disk (`Seek(0, io.SeekEnd)`), or an error if it cannot be opened -/
   flen : Nat → Outcome Nat
+  /-- the whole file read from the start until EOF (`io.Copy` in `Transpose`) -/
+  readAll : Nat → Outcome (List Byte)
 
 /-- A pool over pristine in-memory contents. -/
 def plainPool (olds : Array (List Byte)) : Pool :=
   { nfiles := olds.size
     csize := fun f => (olds.getD f []).length
     read := fun f off len => .ok (((olds.getD f []).drop off).take len)
-    flen := fun f => .ok (olds.getD f []).length }
+    flen := fun f => .ok (olds.getD f []).length
+    readAll := fun f => .ok (olds.getD f []) }
 
 /-- bounds check of a file index taken from a message: out of range is a corrupted patch (an error). -/
 def idx (n : Nat) (i : Int) (site : String) : Outcome Nat :=
@@ -250,17 +253,13 @@ def processFile (E : Env) (i : Nat) (msgs : List WMsg) (r : Res) : Outcome (List
           match full with
           | some t =>
             -- Transpose: whole-file copy of old file `t`
-            match E.pool.flen t with
+            match E.pool.readAll t with
             | .err e => .err e
             | .panic p => .panic p
-            | .ok n =>
-              match E.pool.read t 0 n with
-              | .err e => .err e
-              | .panic p => .panic p
-              | .ok bytes =>
-                (skipOps rest1).bind fun rest' =>
-                  .ok (rest', { out := r.out ++ [(i, bytes)], touched := r.touched + 1,
-                                calls := r.calls ++ [BowlCall.transpose i t], reads := r.reads ++ [t] })
+            | .ok bytes =>
+              (skipOps rest1).bind fun rest' =>
+                .ok (rest', { out := r.out ++ [(i, bytes)], touched := r.touched + 1,
+                              calls := r.calls ++ [BowlCall.transpose i t], reads := r.reads ++ [t] })
           | none =>
             -- relay the first op, then the rest
             let r1 := { r with calls := r.calls ++ [BowlCall.getWriter i] }
